@@ -99,6 +99,19 @@ Fixpoint pkg_targets (pkg : string) (anns : list string) : res (list string) :=
 Definition pkg_delete_set (pkg : string) (read_files new_files : list string) : list string :=
   map (join2 pkg) (filter (fun f => negb (str_in f new_files)) read_files).
 
+(* ---- sequences of Writes on one LocalPackageReadWriter ----
+   The set of files belonging to the package is fixed by Read (r.files); a Write — accepted or refused —
+   does not change it.  A Write is refused as a whole (nothing is deleted) when the package writer refuses
+   one of the path annotations; otherwise the tracked files that no written resource names are deleted. *)
+Definition rw_accepts (pkg : string) (anns : list string) : bool :=
+  forallb (fun a => is_ok (pkg_write1 pkg a)) anns.
+
+Definition rw_step (pkg : string) (files anns : list string) : res (list string) :=
+  if rw_accepts pkg anns then Ok (pkg_delete_set pkg files anns) else Err.
+
+Definition rw_run (pkg : string) (files : list string) (steps : list (list string)) : list (res (list string)) :=
+  map (rw_step pkg files) steps.
+
 (* a relative path as LocalPackageReader records it (filepath.Rel of a walked file): good names only *)
 Definition rel_canon (f : string) : Prop :=
   exists cs, cs <> [] /\ canon_comps cs = true /\ f = join_with sep cs.
